@@ -3,7 +3,7 @@
 #pragma once
 #include <djinterop/engine/v2/engine_library.hpp>
 
-#include "api_persist.hpp"
+#include "api_blobs.hpp"
 
 namespace api
 {
@@ -299,6 +299,35 @@ inline void prop_reg(const vf::Case& c, Ctx& ctx)
                 auto t3 = db.create_track(minimal_snapshot("a/3.mp3"));
                 VF_CHECK(t3.id() != removed_t, sname(sc) << ": the id " << removed_t << " of a removed track was issued again");
             });
+            break;
+        case 15:  // F34: 2.x set_loops / set_waveform keep the trailing data of the blob they rewrite
+            for (auto sc : e::supported_v2_schemas)
+            {
+                auto db = e::create_temporary_database(sc);
+                auto snap = minimal_snapshot("a/b.mp3");
+                snap.sample_rate = 44100;
+                snap.sample_count = 441000;
+                auto t = db.create_track(snap);
+                sqlite3* conn = vfshim::state().last_db;
+                VF_CHECK(conn != nullptr, "no connection");
+                ref::Toks lp{ref::sc(0), ref::st("TAILDATA!")};
+                ref::Toks ov{ref::sc(0), ref::sc(0), ref::sc(0), ref::sc(0), ref::sc(0), ref::sc(0), ref::st("OVTAIL")};
+                auto b1 = ref::encode(ref::V2_LOOPS, lp), b2 = ref::encode(ref::V2_OVERVIEW, ov);
+                sqlite3_stmt* stmt = nullptr;
+                VF_CHECK(sqlite3_prepare_v2(conn, "UPDATE Track SET loops = ?, overviewWaveFormData = ? WHERE id = ?", -1, &stmt, nullptr) == SQLITE_OK, "prepare");
+                sqlite3_bind_blob(stmt, 1, b1.data(), static_cast<int>(b1.size()), SQLITE_TRANSIENT);
+                sqlite3_bind_blob(stmt, 2, b2.data(), static_cast<int>(b2.size()), SQLITE_TRANSIENT);
+                sqlite3_bind_int64(stmt, 3, t.id());
+                sqlite3_step(stmt);
+                sqlite3_finalize(stmt);
+                t.set_loops({dj::loop{"l", 1.0, 2.0, e::standard_pad_colors::pad_1}});
+                t.set_waveform(std::vector<dj::waveform_entry>(100));
+                auto blobs = raw_blobs(conn, true, t.id());
+                auto got_lp = decode_blob(ref::V2_LOOPS, blobs[4], sname(sc) + " loops");
+                auto got_ov = decode_blob(ref::V2_OVERVIEW, blobs[1], sname(sc) + " overview");
+                VF_CHECK(got_lp.back().s == "TAILDATA!", sname(sc) << ": set_loops dropped the trailing data of the loops blob");
+                VF_CHECK(got_ov.back().s == "OVTAIL", sname(sc) << ": set_waveform dropped the trailing data of the overview waveform blob");
+            }
             break;
         default: break;
     }
